@@ -315,7 +315,7 @@ def run_shard(sh):
                 bad('send-not-faithful', ['send:bin_update', 'human:%s' % human], 'bin_update of %s answered %s; wire has %s' % (hx[:80], str(jb)[:100], [d.hex()[:80] for d in new]), rep)
         elif kind == 'refused':
             # well-formed JSON the agent cannot or will not send: prefixes without attributes, an attribute value it cannot encode,
-            # an empty request - the answer is a failure and nothing may have happened
+            # an empty request - the answer is a failure and nothing may be written (tables and counters: C19 / C18)
             post = rng.choice([{'nlri': gen.prefix_list4(rng, 3) or ['192.0.2.0/24']}, {'attr': {}, 'nlri': ['192.0.2.0/24']},
                                {'attr': {'1': 0, '2': [], '3': 'not-an-address'}, 'nlri': ['192.0.2.0/24']}, {},
                                {'attr': {'1': 0, '2': [], '3': '10.0.0.1', '8': ['NO-SUCH-COMMUNITY']}, 'nlri': ['192.0.2.0/24']},
@@ -333,12 +333,8 @@ def run_shard(sh):
             new = [d for _, d in tr.written[n0:]]
             if new or (isinstance(jb, dict) and jb.get('status') is True):
                 bad('failed-send-wrote', ['send:bin_update-malformed'], 'malformed bin_update %s answered %s and wrote %d frames' % (post, str(jb)[:100], len(new)), rep)
-        if not (isinstance(jb, dict) and jb.get('status') is True):
-            fp1 = full_fp(w)
-            if fp1 != fp0:
-                diff = [i_ for i_, (a_, b_) in enumerate(zip(fp0, fp1)) if a_ != b_]
-                bad('refused-request-changed-state', ['kind:' + kind], 'a %s request answered %s, yet the world changed (fingerprint parts %s: %s -> %s)' % (
-                    kind, str(jb)[:100], diff, str([fp0[i_] for i_ in diff])[:300], str([fp1[i_] for i_ in diff])[:300]), rep)
+        if not (isinstance(jb, dict) and jb.get('status') is True) and len(tr.written) != n0:
+            bad('failed-send-wrote', ['kind:' + kind], 'a %s request answered %s but wrote %d frame(s)' % (kind, str(jb)[:100], len(tr.written) - n0), rep)
         if sum(len(t.written) for t in w.transports() if t is not tr) != others0:
             bad('send-wrote-elsewhere', [], 'a send wrote to a connection other than the current one', rep)
     res['violations'] = list(V.values())
